@@ -14,12 +14,15 @@ import (
 // drawPool builds a pool of n backends with a drawn, then fixed, subset ejected (never all).
 func drawPool(rt *rapid.T, strategy string, maxN int) *pool {
 	n := rapid.IntRange(1, maxN).Draw(rt, "n")
+	if rapid.IntRange(0, 24).Draw(rt, "large_pool") == 0 {
+		n = rapid.SampledFrom([]int{63, 64, 65, 66, 100, 130}).Draw(rt, "n_large") // pool sizes around and beyond a machine word of backends
+	}
 	p, err := newPool(strategy, n)
 	if err != nil {
 		rt.Fatalf("harness: %v", err)
 	}
-	if n >= 2 && rapid.IntRange(0, 2).Draw(rt, "withEjected") == 0 {
-		k := rapid.IntRange(1, n-1).Draw(rt, "ejected")
+	if n >= 2 && (n > maxN || rapid.IntRange(0, 2).Draw(rt, "withEjected") == 0) {
+		k := rapid.IntRange(1, min(n-1, 6)).Draw(rt, "ejected")
 		perm := rapid.Permutation(p.names).Draw(rt, "which")
 		for _, name := range perm[:k] {
 			p.eject(name)
